@@ -191,7 +191,11 @@ PROPS = {
                     + ["Akd.CacheFill." + t for t in ["coherent_reachable", "quiescent_cache_exact", "answers_recent",
                                                       "stale_fill_witness", "stale_fill_witness_fixed", "evict_in_fill_witness"]],
         "streams": ["l1.store", "l1.sched.read"],
-        "rule": "random operation sequences (5..60 ops) through ONE real StorageManager over a fault-injecting database: "
+        # the scheduler scenario judges whole requests (tag C13): a cache that changes what a request returns is a C16 failure too
+        "also_reports": ["C13"],
+        "rule": "l1.sched.read: requests on an instance whose cache is filled by reads with latency while a commit "
+                "lands (shared manager); "
+                "l1.store: random operation sequences (5..60 ops) through ONE real StorageManager over a fault-injecting database: "
                 "set/batch_set (15% rejected by the database), get/batch_get, the user-state queries, begin/commit/rollback, "
                 "flush, sleeps that outlive the 3 ms item lifetime; uncached / cached / 300-byte memory limit; every read is "
                 "compared with the model AND, by the oracle, with the same read issued through an uncached manager on the "
